@@ -205,3 +205,222 @@ func Verif_c26_cond() {
 	verifAssert(got == want, "[[ ]]: exit status differs from bash's grammar and evaluation")
 	verifReach("end")
 }
+
+// The arguments test and [ are called with.
+var verifTestArgs = [...]string{"x", "", "!", "-n", "=", "-a", "-o", "(", ")", "-z", "!="}
+
+// refTest is bash's test.c (posixtest, two_arguments, three_arguments, expr,
+// or, and, term): the exit status of "test args". No file exists and no
+// option is set, so the unary -a and -o are false. Validated against bash 5.2
+// over every sequence of up to five arguments
+// (tools/refcond_validation_test.go.txt).
+type refTest struct {
+	argv []string
+	pos  int
+	bad  bool
+}
+
+func refTestBinop(s string) bool { return s == "=" || s == "!=" }
+func refTestUnop(s string) bool  { return s == "-n" || s == "-z" || s == "-a" || s == "-o" }
+
+func (t *refTest) advance(must bool) {
+	t.pos++
+	if must && t.pos >= len(t.argv) {
+		t.bad = true
+	}
+}
+
+func (t *refTest) unary() bool {
+	op, arg := t.argv[t.pos], t.argv[t.pos+1]
+	t.pos += 2
+	switch op {
+	case "-n":
+		return arg != ""
+	case "-z":
+		return arg == ""
+	}
+	return false
+}
+
+func (t *refTest) binary() bool {
+	l, op, r := t.argv[t.pos], t.argv[t.pos+1], t.argv[t.pos+2]
+	t.pos += 3
+	if op == "=" {
+		return l == r
+	}
+	return l != r
+}
+
+func (t *refTest) two() bool {
+	a := t.argv[t.pos]
+	if a == "!" {
+		v := t.argv[t.pos+1] == ""
+		t.pos += 2
+		return v
+	}
+	if refTestUnop(a) {
+		return t.unary()
+	}
+	t.bad = true
+	return false
+}
+
+func (t *refTest) three() bool {
+	a, b, c := t.argv[t.pos], t.argv[t.pos+1], t.argv[t.pos+2]
+	switch {
+	case refTestBinop(b):
+		return t.binary()
+	case b == "-a":
+		t.pos += 3
+		return a != "" && c != ""
+	case b == "-o":
+		t.pos += 3
+		return a != "" || c != ""
+	case a == "!":
+		t.pos++
+		return !t.two()
+	case a == "(" && c == ")":
+		t.pos += 3
+		return b != ""
+	}
+	t.bad = true
+	return false
+}
+
+func (t *refTest) or() bool {
+	v := t.and()
+	if !t.bad && t.pos < len(t.argv) && t.argv[t.pos] == "-o" {
+		t.advance(false)
+		v2 := t.or()
+		return v || v2
+	}
+	return v
+}
+
+func (t *refTest) and() bool {
+	v := t.term()
+	if !t.bad && t.pos < len(t.argv) && t.argv[t.pos] == "-a" {
+		t.advance(false)
+		v2 := t.and()
+		return v && v2
+	}
+	return v
+}
+
+func (t *refTest) expr() bool {
+	if t.pos >= len(t.argv) {
+		t.bad = true
+		return false
+	}
+	return t.or()
+}
+
+func (t *refTest) term() bool {
+	if t.bad || t.pos >= len(t.argv) {
+		t.bad = true
+		return false
+	}
+	if t.argv[t.pos] == "!" {
+		neg := false
+		for t.pos < len(t.argv) && t.argv[t.pos] == "!" {
+			t.advance(true)
+			neg = !neg
+			if t.bad {
+				return false
+			}
+		}
+		v := t.term()
+		return v != neg
+	}
+	if t.argv[t.pos] == "(" {
+		t.advance(true)
+		if t.bad {
+			return false
+		}
+		v := t.expr()
+		if t.bad || t.pos >= len(t.argv) || t.argv[t.pos] != ")" {
+			t.bad = true
+			return false
+		}
+		t.advance(false)
+		return v
+	}
+	if t.pos+3 <= len(t.argv) && refTestBinop(t.argv[t.pos+1]) {
+		return t.binary()
+	}
+	if t.pos+2 <= len(t.argv) && refTestUnop(t.argv[t.pos]) {
+		return t.unary()
+	}
+	v := t.argv[t.pos] != ""
+	t.advance(false)
+	return v
+}
+
+// refTestEval returns bash's exit status of "test argv": 0, 1 or 2 (error).
+func refTestEval(argv []string) int {
+	t := &refTest{argv: argv}
+	var v bool
+	switch len(argv) {
+	case 0:
+		v = false
+	case 1:
+		v = argv[0] != ""
+		t.pos = 1
+	case 2:
+		v = t.two()
+	case 3:
+		v = t.three()
+	default:
+		if len(argv) == 4 && argv[0] == "!" {
+			t.pos = 1
+			v = !t.three()
+		} else if len(argv) == 4 && argv[0] == "(" && argv[3] == ")" {
+			t.pos = 1
+			v = t.two()
+			t.pos = 4
+		} else {
+			v = t.expr()
+		}
+	}
+	if t.bad || t.pos != len(argv) {
+		return 2
+	}
+	if v {
+		return 0
+	}
+	return 1
+}
+
+// Verif_c26_test: for every list of nargs arguments out of the first ntok of
+// verifTestArgs, test (or [ with a closing ]) exits with bash's status: 0, 1,
+// or 2 for a malformed expression.
+func Verif_c26_test() {
+	nargs, ntok := verifParam("nargs"), verifParam("ntok")
+	ids := [...]string{"t0", "t1", "t2", "t3", "t4", "t5", "t6", "t7"}
+	var argv []string
+	var ws []*syntax.Word
+	for i := 0; i < nargs; i++ {
+		t := verifTestArgs[verifChoice(ids[i], ntok)]
+		argv = append(argv, t)
+		ws = append(ws, &syntax.Word{Parts: []syntax.WordPart{&syntax.SglQuoted{Value: t}}})
+	}
+	name := "test"
+	if verifParam("bracket") != 0 {
+		name = "["
+		ws = append(ws, &syntax.Word{Parts: []syntax.WordPart{&syntax.Lit{Value: "]"}}})
+	}
+	want := refTestEval(argv)
+	var out, errb bytes.Buffer
+	r := verifRunner(&out, &errb)
+	rerr := r.Run(context.Background(), verifCall(name, ws))
+	got := 0
+	if rerr != nil {
+		st, isExit := rerr.(ExitStatus)
+		verifAssert(isExit, "test: Run fails with an error that is no exit status")
+		got = int(st)
+	}
+	verifObserve("args", strings.Join(argv, " "))
+	verifObserve("status", string(rune(0x30+got)))
+	verifAssert(got == want, "test: exit status differs from bash's")
+	verifReach("end")
+}
